@@ -115,7 +115,7 @@ impl Scenario for S4 {
         }
         World { host, tasks, swarm: setup.get("swarm").cloned().unwrap_or(J::obj()), log: 0, steps: 0, bytes: 0, tlogs: vec![] }
     }
-    fn gen_op(&self, w: &World, _mix: &str, st: &mut Streams) -> Option<Op> {
+    fn gen_op(&self, w: &World, mix: &str, st: &mut Streams) -> Option<Op> {
         let live: Vec<usize> = (0..w.tasks.len()).filter(|i| w.tasks[*i].real.is_some()).collect();
         if live.is_empty() || w.steps >= w.swarm.u_or("nops", 24) as u64 {
             return None;
@@ -134,6 +134,7 @@ impl Scenario for S4 {
             ("final", sw.u_or("w_final", 1) + if last { 50 } else { 0 }),
             ("drop", sw.u_or("w_drop", 0)),
             ("jump", sw.u_or("w_jump", 0)),
+            ("clonefrom", if mix == "C18" { 0 } else { sw.u_or("w_clone", 1).min(1) }),
         ];
         let total: u128 = wts.iter().map(|x| x.1).sum();
         let mut c = r.below(total.max(1) as u64) as u128;
@@ -187,6 +188,15 @@ impl Scenario for S4 {
             "jump" => {
                 let (k, _) = super::s6_counters::pick_k(r, t.ty);
                 Op::new(t32, "jump", &[("blocks", k)])
+            }
+            "clonefrom" => {
+                // Clone::clone_from(dst = this task, src = another live task of the same type), if there is one
+                let cands: Vec<usize> = live.iter().copied().filter(|j| *j != ti && w.tasks[*j].ty == t.ty).collect();
+                if cands.is_empty() {
+                    Op::new(t32, "clone", &[])
+                } else {
+                    Op::new(t32, "clonefrom", &[("src", *r.pick(&cands) as u128)])
+                }
             }
             k => Op::new(t32, k, &[]),
         })
@@ -534,6 +544,38 @@ fn step_inner(w: &mut World, ti: usize, op: &Op, stats: &mut Stats, rh: &mut u64
             t.cloned = false;
             t.reused = false;
             t.multi_with_fill = false;
+            Step::Done
+        }
+        "clonefrom" => {
+            let src = op.get("src") as usize;
+            if src >= w.tasks.len() || src == ti || w.tasks[src].real.is_none() || w.tasks[src].ty != w.tasks[ti].ty {
+                return Step::Skip;
+            }
+            stats.hit("op.clone_from");
+            let fc_dst = fill_class(&w.tasks[ti]);
+            let fc_src = fill_class(&w.tasks[src]);
+            let (a, b) = if ti < src {
+                let (l, r) = w.tasks.split_at_mut(src);
+                (&mut l[ti], &r[0])
+            } else {
+                let (l, r) = w.tasks.split_at_mut(ti);
+                (&mut r[0], &l[src])
+            };
+            let sreal = b.real.as_ref().unwrap();
+            match guarded(|| a.real.as_mut().unwrap().clone_from_obj(sreal.as_ref())) {
+                Ok(true) => {}
+                Ok(false) => return Step::Skip,
+                Err(m) => return Step::Fail(Violation::new(&["C08"], "H0", format!("clone_from panics:{}", tyname), m)),
+            }
+            if fc_dst >= 2 && fc_src <= 1 {
+                stats.hit("probe.clone_from_into_partly_filled_from_empty_buffer");
+            }
+            a.msg = b.msg.clone();
+            a.jumps = b.jumps.clone();
+            a.cloned = true;
+            a.reused = b.reused;
+            a.multi_with_fill = b.multi_with_fill;
+            stats.state(&[16, a.ty as u64, fc_dst, fc_src]);
             Step::Done
         }
         "jump" => {
